@@ -696,7 +696,7 @@ def c15(c):
 
 # ---------------------------------------------------------------------------------------------- C13 (symmetries)
 C13_THEOREMS = ["c13_reflect_hinit", "c13_tolerance_scalar_vector", "c13_radau_tolAdjust", "c13_reflect_rk4", "c13_reflect_rk23", "c13_reflect_dopri5",
-                "c13_reflect_dop853", "c13_reflect_guards", "c13_reflect_stiff", "c13_reflect_norm", "c13_scale_dopri5", "c13_scale_rk23", "c13_copies_norm", "c13_copies_radau_norms", "c13_scale_bdf_norm", "c13_reflect_rk4_whole_run", "Ctl.rk4Iter_reflect", "Ctl.rk4Loop_reflect", "c13_reflect_rk23_whole_run", "Ctl.rk23Iter_reflect", "Ctl.rk23Loop_reflect", "c13_reflect_hairer_whole_run", "c13_reflect_dopri5_whole_run", "c13_reflect_dop853_whole_run", "Ctl.dop853KRefl", "c13_scale_hairer_whole_run", "c13_scale_dopri5_whole_run", "c13_scale_dop853_whole_run", "Ctl.dop853KScale", "c13_scale_rk23_whole_run", "c13_scale_rk4_whole_run", "c13_copies_hairer_whole_run", "c13_copies_dopri5_whole_run", "c13_copies_rk23_whole_run", "c13_copies_rk4_whole_run", "c13_copies_dop853_whole_run", "c13_reflect_radau_control", "RadauCtl.pass_mir", "RadauCtl.run_mir", "RadauCtl.start_mir", "sqrtDiv_real", "Ctl.dop853KDup", "Ctl.dop853_norm_copies", "Ctl.rk23Iter_dup", "Ctl.rk4Iter_dup", "Ctl.hIter_dup", "Ctl.dopri5KDup", "Ctl.blockRhs_dup", "Ctl.firstCopyObs_dup", "Ctl.rk23Iter_scale", "Ctl.rk4Iter_scale", "Ctl.hIter_scale", "Ctl.dopri5KScale", "Ctl.hinitCall_scale", "Ctl.sRhs_of_homogeneous", "Ctl.hIter_reflect", "Ctl.hLoop_reflect", "Ctl.dopri5KRefl", "Ctl.dopri5Params_refl", "Ctl.dop853Params_refl", "Ctl.hinitCall_refl",
+                "c13_reflect_dop853", "c13_reflect_guards", "c13_reflect_stiff", "c13_reflect_norm", "c13_scale_dopri5", "c13_scale_rk23", "c13_copies_norm", "c13_copies_radau_norms", "c13_scale_bdf_norm", "c13_reflect_rk4_whole_run", "Ctl.rk4Iter_reflect", "Ctl.rk4Loop_reflect", "c13_reflect_rk23_whole_run", "Ctl.rk23Iter_reflect", "Ctl.rk23Loop_reflect", "c13_reflect_hairer_whole_run", "c13_reflect_dopri5_whole_run", "c13_reflect_dop853_whole_run", "Ctl.dop853KRefl", "c13_scale_hairer_whole_run", "c13_scale_dopri5_whole_run", "c13_scale_dop853_whole_run", "Ctl.dop853KScale", "c13_scale_rk23_whole_run", "c13_scale_rk4_whole_run", "c13_copies_hairer_whole_run", "c13_copies_dopri5_whole_run", "c13_copies_rk23_whole_run", "c13_copies_rk4_whole_run", "c13_copies_dop853_whole_run", "c13_reflect_radau_control", "c13_reflect_bdf_control", "BdfCtl.pass_mir", "BdfCtl.run_mir", "BdfCtl.start_mir", "RadauCtl.pass_mir", "RadauCtl.run_mir", "RadauCtl.start_mir", "sqrtDiv_real", "Ctl.dop853KDup", "Ctl.dop853_norm_copies", "Ctl.rk23Iter_dup", "Ctl.rk4Iter_dup", "Ctl.hIter_dup", "Ctl.dopri5KDup", "Ctl.blockRhs_dup", "Ctl.firstCopyObs_dup", "Ctl.rk23Iter_scale", "Ctl.rk4Iter_scale", "Ctl.hIter_scale", "Ctl.dopri5KScale", "Ctl.hinitCall_scale", "Ctl.sRhs_of_homogeneous", "Ctl.hIter_reflect", "Ctl.hLoop_reflect", "Ctl.dopri5KRefl", "Ctl.dopri5Params_refl", "Ctl.dop853Params_refl", "Ctl.hinitCall_refl",
                 "rkArg_reflect", "rkNew_reflect", "rkArg_scale", "rkNew_scale", "sum_copies", "foldl_add_eq_sum"]
 
 
@@ -713,7 +713,7 @@ def c13(c):
         {"theorem": "c13_copies_norm", "statement": "(Σ_{i<m·n} (e_{i mod n}/sk_{i mod n})²)/(m·n) = (Σ_{i<n} (e_i/sk_i)²)/n"},
     ]
     c.partial = ["'bit-identical' is not expressible over ordered fields: the theorems are exact-arithmetic symmetries of the translated stage code, norms and guards; bitwise identity of whole runs is decided per input by sym-check (paired real runs: reflection with and without events, 2^k scaling, scalar/vector tolerances, 2..16 copies)",
-                 "whole-run reflection is a theorem for all four explicit methods incl. the automatic first step (c13_reflect_rk4_whole_run, c13_reflect_rk23_whole_run, c13_reflect_dopri5_whole_run, c13_reflect_dop853_whole_run: induction over the loop, mirrored right-hand side and observer; the last two instantiate c13_reflect_hairer_whole_run, which holds for any kernel obeying the mirror laws), in exact arithmetic over the modelled loop (tied to the code by X-solve); whole-run scaling of state and atol by c > 0 is a theorem for all four explicit methods (c13_scale_rk4_whole_run, c13_scale_rk23_whole_run, c13_scale_dopri5_whole_run, c13_scale_dop853_whole_run; the last two are instances of c13_scale_hairer_whole_run for kernels related by the scaling laws), for every right-hand side that is homogeneous of degree one in the state (every linear system y' = A(t) y), in exact arithmetic — where any c > 0 works; that powers of two make the binary64 run bit-identical is decided per input by sym-check; duplication into m independent copies is a whole-run theorem for the DOPRI5 / DOP853 skeleton with a given first step and for DOPRI5's own kernel (c13_copies_hairer_whole_run, c13_copies_dopri5_whole_run: the block-diagonal system, stacked tolerances), and for RK23 and RK4 (c13_copies_rk23_whole_run, c13_copies_rk4_whole_run), and for DOP853 under the hypothesis sqrt(a / b^2) = sqrt(a) / b (c13_copies_dop853_whole_run; sqrtDiv_real shows the real square root has it; in binary64 it holds up to rounding, which is the property's 'up to rounding in the error norm'); it is false for the automatic first step (open finding c13-copies-autostep); Radau's control logic under reflection is a theorem over its control model for every answer of the numeric kernel (c13_reflect_radau_control; that the kernel's answers — Newton increments, error estimates — are themselves reflection invariant is not proved: X-radaunum and sym-check), BDF stepping under reflection and both implicit methods under scaling are not theorems",
+                 "whole-run reflection is a theorem for all four explicit methods incl. the automatic first step (c13_reflect_rk4_whole_run, c13_reflect_rk23_whole_run, c13_reflect_dopri5_whole_run, c13_reflect_dop853_whole_run: induction over the loop, mirrored right-hand side and observer; the last two instantiate c13_reflect_hairer_whole_run, which holds for any kernel obeying the mirror laws), in exact arithmetic over the modelled loop (tied to the code by X-solve); whole-run scaling of state and atol by c > 0 is a theorem for all four explicit methods (c13_scale_rk4_whole_run, c13_scale_rk23_whole_run, c13_scale_dopri5_whole_run, c13_scale_dop853_whole_run; the last two are instances of c13_scale_hairer_whole_run for kernels related by the scaling laws), for every right-hand side that is homogeneous of degree one in the state (every linear system y' = A(t) y), in exact arithmetic — where any c > 0 works; that powers of two make the binary64 run bit-identical is decided per input by sym-check; duplication into m independent copies is a whole-run theorem for the DOPRI5 / DOP853 skeleton with a given first step and for DOPRI5's own kernel (c13_copies_hairer_whole_run, c13_copies_dopri5_whole_run: the block-diagonal system, stacked tolerances), and for RK23 and RK4 (c13_copies_rk23_whole_run, c13_copies_rk4_whole_run), and for DOP853 under the hypothesis sqrt(a / b^2) = sqrt(a) / b (c13_copies_dop853_whole_run; sqrtDiv_real shows the real square root has it; in binary64 it holds up to rounding, which is the property's 'up to rounding in the error norm'); it is false for the automatic first step (open finding c13-copies-autostep); the control logic of Radau and of BDF under reflection is a theorem over their control models for every answer of the numeric kernel (c13_reflect_radau_control, c13_reflect_bdf_control; that the kernel's answers — Newton increments, error norms — are themselves reflection invariant is not proved: X-radaunum / X-bdfnum and sym-check); both implicit methods under scaling and duplication are not theorems",
                  "implicit methods: step-for-step comparison of copies is not robust (quantised step-size changes); sym-check compares them stepwise anyway and has not alarmed; open finding c13-copies-autostep (hinit's unnormalised sums)"]
 
 
